@@ -159,5 +159,21 @@ Definition S06e_step (x : thstep_t) : bool :=
   end.
 Definition S06e (tr : list thstep_t) : bool := forallb S06e_step tr.
 
+(* (f) arguments: every start the storage layer sees - the forwarded one and the restart in the middle
+   of a trigger - carries the background and the threshold of the LATEST upstream start that returned
+   no error ((-1, 0) before the first one: no such start is ever issued in a conforming run) *)
+Definition bstart_args_ok (bg th : Z) (o : list tout) : bool :=
+  forallb (fun x => match x with BStart b t _ => (b =? bg) && (t =? th) | _ => true end) o.
+Fixpoint S06f_from (last : Z * Z) (tr : list thstep_t) : bool :=
+  match tr with
+  | [] => true
+  | (u, o) :: r =>
+    match u with
+    | UStart bg th _ => bstart_args_ok bg th o && S06f_from (if ret_err o then last else (bg, th)) r
+    | _ => bstart_args_ok (fst last) (snd last) o && S06f_from last r
+    end
+  end.
+Definition S06f (tr : list thstep_t) : bool := S06f_from (-1, 0) tr.
+
 Definition S06 (minlen : Z) (tr : list thstep_t) : bool :=
-  S06a tr && S06bd minlen tr && S06e tr.
+  S06a tr && S06bd minlen tr && S06e tr && S06f tr.
